@@ -265,3 +265,21 @@ def _stable_root(t):
     while isinstance(t, tuple) and t and t[0] in ("field", "vfield", "variant"):
         t = t[1]
     return isinstance(t, tuple) and t and t[0] == "param"
+
+
+def path_conditions(fn, ev, IN, b, ef=None):
+    """Path conditions under which block b is entered, one per incoming edge (a block entered from several branch edges, as in the lowering
+    of `a || b` or of a range pattern, keeps one condition per edge instead of their intersection): [(pred, [relational facts])]."""
+    ef = ef if ef is not None else edge_facts(fn, ev)
+    out = []
+    preds = [p for p in fn.pred(b) if p in IN]
+    if len(preds) <= 1:
+        return [(preds[0] if preds else None, rel_facts_at(IN, b))]
+    for p in preds:
+        ms = mutated_bases(fn, ev, p)
+        fs = [f for f in IN[p] if not (ms and reads_state_of(f, ms))] + list(ef.get((p, b), ()))
+        rels = []
+        for f in fs:
+            rels.extend(relational(f))
+        out.append((p, rels))
+    return out
